@@ -11,6 +11,8 @@ import RsModel.Lemmas.WarmTree
 import RsModel.Lemmas.WarmMap
 import RsModel.Lemmas.HistoryAnswers
 import RsModel.Lemmas.WarmLinesF
+import RsModel.Lemmas.RootHistory
+import RsModel.Lemmas.RootHistoryL
 /-!
 # C10 — CachedSource is transparent for every call history
 -/
@@ -415,5 +417,59 @@ example : LNameOf ((Src.concat (.cons (.cached 0 (.orig [97, 59, 98, 10, 99] [10
     ∧ LNameOf ((Src.concat (.cons (.cached 0 (.orig [97, 59, 98, 10, 99] [102])) (.cons (.rawStr [120]) .nil))).stream ⟨false, false⟩ []).1.evs 2
       = some (some [102], 2) := by
   constructor <;> decide
+
+/-! ## the wrapper itself: `map()` and `stream_chunks` of an outside caller share one entry -/
+
+/-- **every call of every history on the CachedSource wrapper and its clones** (columns = true): an outside caller calls `map()` and
+`stream_chunks` (always `final_source = false`) in any order, any number of times; both use the cache entry keyed `(true, false)`,
+shared by all clones (the model's store).  Whichever comes first fills it — `map()` with the wrapped source's own map (`mapFill`),
+`stream_chunks` with the map re-encoded from the streamed chunks (`streamFill`).  For a cache-free wrapped tree of the domain of C03
+whose `map()` is `get_map`: in every history from a store where the entry is absent (or holds one of the two fills),
+* every `stream_chunks` answer attributes every byte to exactly the original location (source index, line, column, name index) the
+  wrapped source's own stream gives it, and delivers the wrapped text;
+* every `map()` answer is one of the two fills, and each of them resolves every position of `source()` exactly as the wrapped
+  source's stream does — and is absent exactly when nothing is mapped.
+(`Lemmas/RootHistory.lean`: invariant `RootInv`; which of the two representations is returned depends on the history — known
+finding K3 — the attribution does not.) -/
+theorem c10_root_history (id : Nat) (inner : Src) (h : RootHyp inner) (hw : (Src.cached id inner).WF) (calls : List RCall) (σ : Store)
+    (hi : RootInv id inner σ) :
+    ∀ a ∈ (runRoot id inner calls σ).1,
+      (match a with
+       | .stream r => attrOf r.evs = attrOf (inner.stream ⟨true, false⟩ []).1.evs
+       | .map m => (m = mapFill inner ∨ m = streamFill inner)
+           ∧ (∀ sm, m = some sm → attrFrom (decode sm.mappings) startPos inner.src = attrOf (inner.stream ⟨true, false⟩ []).1.evs)
+           ∧ (m = none → attrOf (inner.stream ⟨true, false⟩ []).1.evs = List.replicate inner.src.length none)) := by
+  intro a ha
+  have := runRoot_answers id inner h calls σ hi a ha
+  cases a with
+  | stream r => exact this
+  | map m => exact ⟨this, fills_resolve inner h m this⟩
+
+/-- a cold store satisfies the invariant -/
+theorem c10_root_history_cold (id : Nat) (inner : Src) (σ : Store) (h : σ.get? (id, ⟨true, false⟩) = none) : RootInv id inner σ :=
+  Or.inl h
+
+/-- non-vacuity: a six-call history on `CachedSource(OriginalSource("a;b", "f"))` — `map()` first — returns six answers, and the
+second one (a stream answered by replaying the stored map) has the wrapped source's chunk mappings -/
+example : (runRoot 0 (.orig [97, 59, 98] [102]) [.map, .stream, .map, .stream, .stream, .map] []).1.length = 6 := by decide
+
+/-- **… and with columns = false** (file and line granularity, as the property demands): every call of every history of `map(false)` /
+`stream_chunks(false)` calls on the wrapper and its clones, sharing the entry keyed `(false, false)`: every stream answer resolves
+the first mapped chunk of every generated line to the same file name and original line as the wrapped source's own stream; every
+`map()` answer is one of the two fills (`mapFillL`: the wrapped source's lines-only map; `streamFillL`: the lines-only map re-encoded
+from the streamed chunks), and each resolves every generated line `L ≥ 1` — first mapped segment, through its own `sources` — alike.
+Results stored for one column setting are never served for the other: the keys `(true, false)` and `(false, false)` differ
+(`c10_keys`). -/
+theorem c10_root_history_lines (id : Nat) (inner : Src) (h : RootHypL inner) (calls : List RCall) (σ : Store) (hi : RootInvL id inner σ) :
+    ∀ a ∈ (runRootL id inner calls σ).1,
+      (match a with
+       | .stream r => ∀ L, LNameOf r.evs L = LNameOf (inner.stream ⟨false, false⟩ []).1.evs L
+       | .map m => (m = mapFillL inner ∨ m = streamFillL inner)
+           ∧ ∀ sm, m = some sm → ∀ L, 0 < L → LNameM sm L = LNameOf (inner.stream ⟨false, false⟩ []).1.evs L) := by
+  intro a ha
+  have := runRootL_answers id inner h calls σ hi a ha
+  cases a with
+  | stream r => exact this
+  | map m => exact ⟨this, fills_resolve_lines inner h m this⟩
 
 end Rs
